@@ -1,4 +1,5 @@
 import Fabio.Model.C07
+import Fabio.Model.C17
 /-!
 C07 — the property's sentences as decidable predicates over what was *observed* (the request the upstream
 recorded, the response the client read).  Written as brute-force references, independent of the model's
@@ -74,5 +75,44 @@ fixed set and whatever `Connection` lists), the forwarding headers of C08 and th
 part of it. -/
 def endToEnd (listed : List String) (l : List (String × String)) : List (String × String) :=
   l.filter fun kv => !(hopNames ++ forwardingNames ++ framingNames ++ listed).contains kv.1
+
+/-! ### "the client accepts gzip"
+
+The second sentence lets fabio change the bytes of a reply in one way only: the gzip coding of C17, and that only
+for a client that accepts it.  What "accepts" means is read off the client's `Accept-Encoding` value the way
+RFC 9110 §12.5.3 words it — NOT the way `acceptsGzip` walks the list: an element naming `gzip` (any case) with a
+weight other than zero makes it acceptable; if `gzip` is named only with weight zero it is refused, whatever else
+the list says; if it is not named at all, a `*` element with a weight other than zero makes it acceptable.  A weight
+is zero when the element's first `q` parameter is one of the literals the RFC's `qvalue` grammar has for zero.
+The lexical primitives (`splitOn`, `cut`, `trim`) are C17's; the decision is not. -/
+
+open Fabio.Model.C17 (splitOn cut trim) in
+/-- the value of the first parameter named `q`/`Q` -/
+def qParam : List (List Char) → Option (List Char)
+  | [] => none
+  | p :: ps =>
+    let name := trim (cut '=' p).1
+    if name == ['q'] || name == ['Q'] then some (trim (cut '=' p).2) else qParam ps
+
+/-- `qvalue = "0" [ "." 0*3("0") ]` -/
+def rfcZero (v : List Char) : Bool :=
+  v == ['0'] || v == ['0', '.'] || v == ['0', '.', '0'] || v == ['0', '.', '0', '0'] || v == ['0', '.', '0', '0', '0']
+
+/-- the element carries weight zero: "not acceptable" -/
+def refused (e : List Char) : Bool :=
+  match qParam (C17.splitOn ';' (C17.cut ';' e).2) with
+  | some v => rfcZero v
+  | none => false
+
+/-- the element names this content coding (codings are case-insensitive) -/
+def namesCoding (c : List Char) (e : List Char) : Bool := (C17.trim (C17.cut ';' e).1).map Fabio.lowerChar == c
+
+def acceptableL (es : List (List Char)) : Bool :=
+  let named := es.filter (namesCoding "gzip".toList)
+  if named.isEmpty then (es.filter (namesCoding "*".toList)).any (fun e => !refused e)
+  else named.any (fun e => !refused e)
+
+/-- may a reply to a client that sent this `Accept-Encoding` value be gzip-coded by the proxy? -/
+def gzipAcceptable (acceptEncoding : String) : Bool := acceptableL (C17.splitOn ',' acceptEncoding.toList)
 
 end Fabio.Model.C07Spec
